@@ -11,7 +11,7 @@ rmdir "$WT"
 git -C /repo worktree add -q "$WT" HEAD || exit 3
 ( cd "$WT" && git apply "$PATCH" ) || { echo "PATCH DOES NOT APPLY"; git -C /repo worktree remove --force "$WT"; exit 3; }
 for PID in "$@"; do
-  ( cd /verif && VMON_REPO="$WT" VMON_OUT="$OUT" VERIF_SEED=${SEED:-0} /venv/bin/python -m vmon check "$PID" --tier ${TIER:-quick} 2>&1 | grep -E "^(VIOLATION|KNOWN-FINDING|INCONCLUSIVE|C[0-9]+ )" | cut -c1-220 | awk '!seen[substr($0,1,60)]++' | head -${LINES_MAX:-8} )
+  ( cd /verif && VMON_REPO="$WT" VMON_OUT="$OUT" VERIF_SEED=${SEED:-0} /venv/bin/python -m vmon check "$PID" --tier ${TIER:-quick} 2>&1 | grep -E "^(VIOLATION|KNOWN-FINDING|INCONCLUSIVE|C[0-9]+ )" | cut -c1-220 | awk '!seen[substr($0,1,60)]++' | grep -v "^KNOWN-FINDING" | head -${LINES_MAX:-6} )
   if [ -n "${SHOW:-}" ]; then ls "$OUT/replays" | head -3; python3 -c "
 import json,glob,sys
 for f in sorted(glob.glob('$OUT/replays/$PID-*.json'))[:${SHOW}]:
